@@ -77,14 +77,20 @@ def check(repo: Repo, rep: Report) -> None:
     # timer(d, p), d != p: ticks stay on the grid d + k*p: the next due time is the PREVIOUS due time plus the period
     rep.rule("P7-grid", "observable_timer_duetime_and_period: next due = previous due + period (re-based on now only when that is already past)", floor=2)
     ta = repo.fn("reactivex/observable/timer.py", "observable_timer_duetime_and_period.subscribe.action")
-    dts = [x for x in sites(ta) if isinstance(x.node, ast.Assign) and isinstance(x.node.targets[0], ast.Name) and x.node.targets[0].id in ta.nonlocals]
-    adv = [x for x in dts if isinstance(x.node.value, ast.BinOp) and isinstance(x.node.value.op, ast.Add)]
-    grid = [x for x in adv if u(x.node.value.left) == u(x.node.targets[0]) or u(x.node.value.right) == u(x.node.targets[0])]
+    from ..rules import assigned_expr, assign_target
+
+    class _AV:       # an assignment site seen as (target, value) whatever its spelling (`d = d + p` is read as `d += p`)
+        def __init__(self, x):
+            self.site, self.node, self.ctx, self.index = x, x.node, x.ctx, x.index
+            self.target, self.value = assign_target(x.node), assigned_expr(x.node)
+    dts = [_AV(x) for x in sites(ta) if isinstance(assign_target(x.node), ast.Name) and assign_target(x.node).id in ta.nonlocals]
+    adv = [x for x in dts if isinstance(x.value, ast.BinOp) and isinstance(x.value.op, ast.Add)]
+    grid = [x for x in adv if u(x.value.left) == u(x.target) or u(x.value.right) == u(x.target)]
     rebase = [x for x in adv if x not in grid]
     rep.ob("P7-grid", ta, f"`{short(grid[0].node) if grid else '?'}`: previous due time + period, unconditionally within the periodic branch", bool(grid) and all(len(x.ctx.branch) <= 1 for x in grid),
            "the periodic timer does not advance its due time from the previous due time: a tick delivered late shifts every later tick by the same "
            "amount — the sequence leaves the grid duetime + k * period for good")
-    okr = all(any(p_ and isinstance(e, ast.Compare) and u(x.node.targets[0]) in (u(e.left), u(e.comparators[0])) for e, p_ in x.ctx.guards) and (not grid or x.index > grid[0].index) for x in rebase)
+    okr = all(any(p_ and isinstance(e, ast.Compare) and u(x.target) in (u(e.left), u(e.comparators[0])) for e, p_ in x.ctx.guards) and (not grid or x.index > grid[0].index) for x in rebase)
     rep.ob("P7-grid", ta, f"re-basing on now ({[short(x.node, 40) for x in rebase]}) only under a test of the advanced due time against now", okr,
            "the periodic timer re-bases its due time on `now` without first finding the advanced due time already past")
     rep.rule("P6-state-forwarded", "a scheduler's schedule / schedule_relative / schedule_absolute that hands its own `action` to another "
@@ -190,7 +196,8 @@ def check(repo: Repo, rep: Report) -> None:
             state_threading(rep, qt, "QtScheduler")
     # timers
     ta = repo.fn(TM, "observable_timer_duetime_and_period.subscribe.action")
-    cnts = names_augmented(ta, ast.Add)
+    from ..rules import names_stepped_by_one
+    cnts = names_stepped_by_one(ta)
     if len(cnts) != 1:
         cnts = ["?counter"]
     inc = [s for s in sites(ta) if isinstance(s.node, ast.AugAssign) and cell_name(s.node.target) == cnts[0] and isinstance(s.node.op, ast.Add) and u(s.node.value) == "1"]
